@@ -119,6 +119,28 @@ def run(tier, seed):
                     ('A subset of A, B', S['A'] <= S['A,B'], 'A,B'),
                     ('results are in document order', [order[i] for i in ids(R['A,B'])] == sorted(order[i] for i in ids(R['A,B'])), 'A,B'),
                 ]
+                # forgiving lists: an empty alternative, or one that ends in a dangling combinator, designates nothing and changes nothing else
+                try:
+                    comb = rnd.choice(['>', '+', '~', ' >', '> ', ' ~ '])
+                    fk = rnd.choice([':is', ':where'])
+                    forg = {'dangling-first': f'*|*{fk}({A} {comb}, {B})', 'empty-first': f'*|*{fk}(, {B})',
+                            'empty-middle': f'*|*{fk}({B}, , {A})', 'dangling-middle': f'*|*{fk}({B}, {A}{comb}, {A})'}
+                    base_b, base_ab = set(ids(sel(f'*|*:is({B})'))), S['starisAB']
+                    for fname, fs in forg.items():
+                        try:
+                            got_f = set(ids(sel(fs)))
+                        except Exception:
+                            ck.notes['skipped_forgiving_raise_' + fname] = ck.notes.get('skipped_forgiving_raise_' + fname, 0) + 1
+                            continue
+                        want_f = base_ab if fname in ('empty-middle', 'dangling-middle') else base_b
+                        ck.count(('law', 'forgiven alternative adds nothing', fname, len(got_f) > 0))
+                        if got_f != want_f:
+                            ck.violation(f'law "a forgiven alternative designates nothing" fails: {fs!r} selects {len(got_f)} element(s), the list without the '
+                                         f'forgiven alternative {len(want_f)}',
+                                         {'law': 'forgiving list', 'pattern': fs, 'A': A, 'B': B, 'namespaces': nsmap, 'custom': custom,
+                                          'markup': matchcheck.markup_of(sc), 'tree': sc.label})
+                except Exception:
+                    ck.notes['skipped_forgiving_raise'] = ck.notes.get('skipped_forgiving_raise', 0) + 1
                 if not default_ns:
                     laws.append((':is(A, B) = A, B (no default namespace)', S['isAB'] == S['A,B'], 'isAB'))
                     laws.append((':not(A) = complement (implied universal)', S['notA'] == set(order) - S['isA'], 'notA'))
